@@ -23,10 +23,11 @@ const testGenPkg = Mod + "/cmd/test_gen"
 // A generator, identified by the regular expression it matches lines with: the abstract paths of
 // main (helpers spliced in, loop state symbolic) on which that expression is applied.
 type genBranch struct {
-	name  string // "coq" or "go"
-	regex string
-	pos   token.Pos
-	paths []ipath
+	name    string // "coq" or "go"
+	regex   string
+	pos     token.Pos
+	paths   []ipath
+	between string // the literal between the failing group and the name group of the expression ("" or "test")
 }
 
 const findName = "(*regexp.Regexp).FindStringSubmatch"
@@ -316,7 +317,25 @@ func checkC18(p *Prog, r *Report) {
 		r.Unknown("R18a", "generator paths", f.Pos(), "the abstract paths of main could not be enumerated")
 		return
 	}
-	gens := map[string]*genBranch{}
+	// a path belongs to the generator whose text it writes (header, per-match formats); both generators may
+	// share one regular expression
+	kindOf := func(ip ipath) string {
+		for _, e := range ip.Events {
+			if !strings.HasPrefix(e.Callee, "fmt.Fprint") || len(e.Args) < 2 {
+				continue
+			}
+			a := e.Args[1]
+			switch {
+			case strings.Contains(a, "Example ") || strings.Contains(a, "Require Import") || strings.Contains(a, "(* autogenerated"):
+				return "coq"
+			case strings.Contains(a, "func (suite") || strings.Contains(a, `\npackage `) || strings.Contains(a, "testing.T"):
+				return "go"
+			}
+		}
+		return ""
+	}
+	br := map[string]*genBranch{}
+	nRegex := map[string]map[string]bool{}
 	for _, ip := range ips {
 		if ip.Exit != "return" {
 			continue
@@ -330,32 +349,19 @@ func checkC18(p *Prog, r *Report) {
 			r.Unknown("R18a", "generator regular expression", instrPos(fs[0].In), "the receiver of FindStringSubmatch is not a regexp compiled from one constant pattern")
 			return
 		}
-		if gens[re] == nil {
-			gens[re] = &genBranch{regex: re, pos: instrPos(fs[0].In)}
+		k := kindOf(ip)
+		if k == "" {
+			continue
 		}
-		gens[re].paths = append(gens[re].paths, ip)
+		if br[k] == nil {
+			br[k] = &genBranch{name: k, regex: re, pos: instrPos(fs[0].In)}
+			nRegex[k] = map[string]bool{}
+		}
+		nRegex[k][re] = true
+		br[k].paths = append(br[k].paths, ip)
 	}
-	br := map[string]*genBranch{}
-	for _, g := range gens {
-		for _, ip := range g.paths {
-			for _, e := range ip.eventsOf("fmt.Fprintf") {
-				if len(e.Args) < 2 {
-					continue
-				}
-				switch {
-				case strings.Contains(e.Args[1], "Example "):
-					g.name = "coq"
-				case strings.Contains(e.Args[1], "func (suite"):
-					g.name = "go"
-				}
-			}
-		}
-		if g.name != "" {
-			br[g.name] = g
-		}
-	}
-	if len(gens) != 2 || br["coq"] == nil || br["go"] == nil {
-		r.Unknown("R18a", "generator shape", f.Pos(), fmt.Sprintf("expected two generators (one emitting Coq examples, one Go suite methods), each applying one regular expression; found %d expressions, coq=%v go=%v", len(gens), br["coq"] != nil, br["go"] != nil))
+	if br["coq"] == nil || br["go"] == nil || len(nRegex["coq"]) != 1 || len(nRegex["go"]) != 1 {
+		r.Unknown("R18a", "generator shape", f.Pos(), fmt.Sprintf("expected two generators (one writing Coq examples, one a Go suite), each applying one regular expression; found coq=%v (%d expressions) go=%v (%d expressions)", br["coq"] != nil, len(nRegex["coq"]), br["go"] != nil, len(nRegex["go"])))
 		return
 	}
 	r.Table("regexes", map[string]string{"coq": br["coq"].regex, "go": br["go"].regex})
@@ -446,15 +452,40 @@ func checkRegexes(r *Report, cq, gq *genBranch) {
 	if c3 == nil || g3 == nil {
 		r.Unknown("R18a", "name groups correspond", pos, "group 3 missing")
 	} else {
-		lit := &syntax.Regexp{Op: syntax.OpLiteral, Rune: []rune("test")}
-		cat := &syntax.Regexp{Op: syntax.OpConcat, Sub: []*syntax.Regexp{lit, g3}}
-		n1, e1 := nfaOf(c3)
-		n2, e2 := nfaOf(cat)
+		// the function name after the failing prefix is <literal between the groups><name group> on both sides
+		litOf := func(re *syntax.Regexp) string {
+			sh := topLevelShape(re)
+			i1, i3, lit := -1, -1, ""
+			for i, x := range sh {
+				if x == "cap1" {
+					i1 = i
+				}
+				if x == "cap3" {
+					i3 = i
+				}
+			}
+			if i1 >= 0 && i3 > i1 {
+				for _, x := range sh[i1+1 : i3] {
+					if strings.HasPrefix(x, "lit:") {
+						lit += x[4:]
+					}
+				}
+			}
+			return lit
+		}
+		catOf := func(lit string, g *syntax.Regexp) *syntax.Regexp {
+			if lit == "" {
+				return g
+			}
+			return &syntax.Regexp{Op: syntax.OpConcat, Sub: []*syntax.Regexp{{Op: syntax.OpLiteral, Rune: []rune(lit)}, g}}
+		}
+		n1, e1 := nfaOf(catOf(litOf(rc), c3))
+		n2, e2 := nfaOf(catOf(litOf(rg), g3))
 		if e1 != nil || e2 != nil {
 			r.Unknown("R18a", "name groups correspond", pos, "unsupported operator in group 3")
 		} else {
 			e, w, who := langEquivalent(n1, n2)
-			r.Check("R18a", "name groups correspond", pos, e, fmt.Sprintf("Coq name group must equal \"test\"+Go name group; differ on %q (%s)", w, who))
+			r.Check("R18a", "name groups correspond", pos, e, fmt.Sprintf("<literal><name group> must denote the same names in both generators; differ on %q (%s)", w, who))
 		}
 	}
 	// reconstruction shape: [.. cap1(contains cap2) , (lit:test)?, cap3 ..]
@@ -483,8 +514,11 @@ func checkRegexes(r *Report, cq, gq *genBranch) {
 	}
 	bc, okc := between(sc)
 	bg, okg := between(sg)
-	r.Check("R18a", "groups are adjacent up to a literal", pos, okc && okg && bc == "" && bg == "test",
-		fmt.Sprintf("between the failing group and the name group: Coq has %q (want \"\"), Go has %q (want \"test\"): the emitted call must spell the matched function name", bc, bg))
+	cq.between, gq.between = bc, bg
+	// the literal between the groups is put back by the formats (checked per emission: the printed names are
+	// <failing group><literal><name group>)
+	r.Check("R18a", "groups are adjacent up to a literal", pos, okc && okg && (bc == "" || bc == "test") && (bg == "" || bg == "test"),
+		fmt.Sprintf("between the failing group and the name group: Coq has %q, Go has %q (a literal \"test\" or nothing expected): the emitted call must spell the matched function name", bc, bg))
 }
 
 // suffixFacts: the suffix tests a path has decided about a file name: per tested name key, the
@@ -707,24 +741,29 @@ func checkEmissions(p *Prog, r *Report, f *ssa.Function, br map[string]*genBranc
 				gk := "len(" + m(2) + ")"
 				failing := hasAny(ip.Rels, "0 != "+gk, "0 < "+gk, eqRelNe(`""`, m(2)))
 				plain := hasAny(ip.Rels, eqRel("0", gk), gk+" <= 0", eqRel(`""`, m(2)))
-				fs := fm(emit[0])
+				// the emitted sentence with the groups put back symbolically: ⟨2⟩ failing group, ⟨3⟩ name group
+				txt := substGroups(fm(emit[0]), emit[0].Args[2], m(2), m(3))
+				name := g.between + "\x03"
+				wantFail := "Fail Example " + name + "_ok : \x02" + name + " #() ~~> #true := t.\n"
+				wantPlain := "Example " + name + "_ok : " + name + " #() ~~> #true := t.\n"
 				switch {
-				case strings.HasPrefix(fs, "Fail Example "):
+				case strings.HasPrefix(txt, "Fail Example "):
 					if !failing {
 						formBad = "the Fail form is emitted without the fact that the failing group is non-empty: " + ip.Trace
 					}
-					if emit[0].Args[2] != "["+m(3)+","+m(2)+","+m(3)+"]" || !strings.Contains(fs, " : %s%s ") {
-						argBad = fmt.Sprintf("Fail: %q %s", fs, emit[0].Args[2])
+					if txt != wantFail {
+						argBad = fmt.Sprintf("Fail form prints %s, expected %s", showGroups(txt), showGroups(wantFail))
 					}
-				case strings.HasPrefix(fs, "Example "):
+				case strings.HasPrefix(txt, "Example "):
 					if !plain {
 						formBad = "the plain form is emitted without the fact that the failing group is empty: " + ip.Trace
 					}
-					if emit[0].Args[2] != "["+m(3)+","+m(3)+"]" || !strings.Contains(fs, " : %s ") {
-						argBad = fmt.Sprintf("plain: %q %s", fs, emit[0].Args[2])
+					// under an empty failing group ⟨2⟩ prints nothing
+					if strings.ReplaceAll(txt, "\x02", "") != wantPlain {
+						argBad = fmt.Sprintf("plain form prints %s, expected %s", showGroups(txt), showGroups(wantPlain))
 					}
 				default:
-					formBad = fmt.Sprintf("unexpected emission %q", fs)
+					formBad = fmt.Sprintf("unexpected emission %q", showGroups(txt))
 				}
 			} else {
 				if !matched {
@@ -744,11 +783,16 @@ func checkEmissions(p *Prog, r *Report, f *ssa.Function, br map[string]*genBranc
 					}
 					fs := fm(e)
 					depth += strings.Count(fs, "{") - strings.Count(fs, "}")
-					if strings.Contains(fs, "%stest%s()") && len(e.Args) >= 3 && e.Args[2] == "["+m(2)+","+m(3)+"]" {
-						okCallee = true
-					}
-					if strings.HasPrefix(fs, "func (suite *GoTestSuite) Test%s()") && len(e.Args) >= 3 && e.Args[2] == "["+m(3)+"]" {
-						okName = true
+					if len(e.Args) >= 3 {
+						txt := substGroups(fs, e.Args[2], m(2), m(3))
+						// the call of the matched function: <failing group><literal><name group>()
+						if strings.Contains(txt, "\x02"+g.between+"\x03()") {
+							okCallee = true
+						}
+						// one suite method per match, named after the name group
+						if strings.HasPrefix(txt, "func (suite *GoTestSuite) Test") && strings.Contains(txt, "\x03() {") && !strings.Contains(txt, "\x02") {
+							okName = true
+						}
 					}
 				}
 				if depth != 0 {
@@ -1066,4 +1110,27 @@ func splitTop(s string) []string {
 		out = append(out, s[start:])
 	}
 	return out
+}
+
+// substGroups fills the %s verbs of a format with symbols for the operands: \x02 for the failing group, \x03 for
+// the name group, \x00 for anything else.
+func substGroups(format, ops, g2, g3 string) string {
+	list := splitTop(strings.TrimSuffix(strings.TrimPrefix(ops, "["), "]"))
+	for _, o := range list {
+		v := "\x00"
+		switch o {
+		case g2:
+			v = "\x02"
+		case g3:
+			v = "\x03"
+		}
+		format = strings.Replace(format, "%s", v, 1)
+	}
+	return format
+}
+
+func showGroups(s string) string {
+	s = strings.ReplaceAll(s, "\x02", "⟨failing⟩")
+	s = strings.ReplaceAll(s, "\x03", "⟨name⟩")
+	return strconv.Quote(strings.ReplaceAll(s, "\x00", "⟨?⟩"))
 }
